@@ -146,6 +146,7 @@ type dbh struct {
 	db      database.DB
 	maxFile uint32
 	maxCach uint64
+	net     uint32
 	f       *faults
 	synced  map[uint32]int64 // per block file: length known to be fsynced
 	tmps    []string
@@ -172,9 +173,9 @@ func (h *dbh) install() {
 func (h *dbh) open(create bool) error {
 	var err error
 	if create {
-		h.db, err = database.Create("ffldb", h.dir, wire.BitcoinNet(0xd9b4bef9))
+		h.db, err = database.Create("ffldb", h.dir, wire.BitcoinNet(h.net))
 	} else {
-		h.db, err = database.Open("ffldb", h.dir, wire.BitcoinNet(0xd9b4bef9))
+		h.db, err = database.Open("ffldb", h.dir, wire.BitcoinNet(h.net))
 	}
 	if err != nil {
 		h.db = nil
@@ -271,6 +272,13 @@ func (h *dbh) snapshotDir(strict bool) string {
 		}
 	}
 	return dst
+}
+
+// reconfig: "ro:<maxFile>:<maxCache>:<net>" reopens with another configuration.
+func (h *dbh) reconfig(f []string) {
+	if len(f) == 4 {
+		h.maxFile, h.maxCach, h.net = uint32(atoi(f[1])), uint64(atoi(f[2])), uint32(atoi(f[3]))
+	}
 }
 
 func (h *dbh) touched(n uint32) bool { _, ok := h.synced[n]; return ok }
@@ -396,7 +404,7 @@ func execDb(args []string) (out string) {
 	if err != nil {
 		panic(err)
 	}
-	h := &dbh{dir: filepath.Join(dir, "db"), maxFile: uint32(atoi(args[0])), maxCach: uint64(atoi(args[1]))}
+	h := &dbh{dir: filepath.Join(dir, "db"), maxFile: uint32(atoi(args[0])), maxCach: uint64(atoi(args[1])), net: 0xd9b4bef9}
 	h.tmps = append(h.tmps, dir)
 	h.f = &faults{count: map[string]int{}, db: h}
 	defer h.cleanup()
@@ -433,11 +441,10 @@ func execDb(args []string) (out string) {
 			}
 			o = errStr(err)
 		case "co":
+			// the handle is kept: later operations on it must report a closed transaction
 			o = errStr(s.txs[f[1]].Commit())
-			delete(s.txs, f[1])
 		case "rb":
 			o = errStr(s.txs[f[1]].Rollback())
-			delete(s.txs, f[1])
 		case "p":
 			if b := s.bucket(s.txs[f[1]], f[2]); b == nil {
 				o = "nobucket"
@@ -581,6 +588,96 @@ func execDb(args []string) (out string) {
 				}
 				o = strings.Join(parts, "+")
 			}
+		case "hbs":
+			var hs []chainhash.Hash
+			for _, id := range ids(f[2]) {
+				hs = append(hs, *blockHash(id))
+			}
+			res, err := s.txs[f[1]].HasBlocks(hs)
+			if err != nil {
+				o = errStr(err)
+			} else {
+				parts := make([]string, len(res))
+				for i, b := range res {
+					parts[i] = "0"
+					if b {
+						parts[i] = "1"
+					}
+				}
+				o = strings.Join(parts, "+")
+			}
+		case "fhs":
+			var hs []chainhash.Hash
+			for _, id := range ids(f[2]) {
+				hs = append(hs, *blockHash(id))
+			}
+			bs, err := s.txs[f[1]].FetchBlockHeaders(hs)
+			if err != nil {
+				o = errStr(err)
+			} else {
+				parts := make([]string, len(bs))
+				for i, b := range bs {
+					parts[i] = hx(b)
+				}
+				o = strings.Join(parts, "+")
+			}
+		case "bp":
+			pruned, err := s.txs[f[1]].BeenPruned()
+			if err != nil {
+				o = errStr(err)
+			} else if pruned {
+				o = "1"
+			} else {
+				o = "0"
+			}
+		case "wr":
+			if b := s.bucket(s.txs[f[1]], f[2]); b == nil {
+				o = "nobucket"
+			} else if b.Writable() {
+				o = "1"
+			} else {
+				o = "0"
+			}
+		case "cbk":
+			if c := s.curs[f[1]]; c == nil {
+				o = "nocursor"
+			} else if c.Bucket() != nil {
+				o = "1"
+			} else {
+				o = "0"
+			}
+		case "fes", "feb":
+			b := s.bucket(s.txs[f[1]], f[2])
+			if b == nil {
+				o = "nobucket"
+				break
+			}
+			n, errStop := atoi(f[3]), errors.New("stop")
+			var parts []string
+			var err error
+			if f[0] == "fes" {
+				err = b.ForEach(func(k, v []byte) error {
+					parts = append(parts, kvOut(k, v))
+					if len(parts) == n {
+						return errStop
+					}
+					return nil
+				})
+			} else {
+				err = b.ForEachBucket(func(k []byte) error {
+					parts = append(parts, hx(k))
+					if len(parts) == n {
+						return errStop
+					}
+					return nil
+				})
+			}
+			o = "[" + strings.Join(parts, ",") + "]"
+			if err == errStop {
+				o += "!"
+			} else if err != nil {
+				o = errStr(err)
+			}
 		case "pr":
 			hs, err := s.txs[f[1]].PruneBlocks(uint64(atoi(f[2])))
 			if err != nil {
@@ -605,6 +702,7 @@ func execDb(args []string) (out string) {
 			o = errStr(ffldb.VerifFlushCache(h.db))
 		case "ro":
 			closeTxs()
+			h.reconfig(f)
 			err := h.db.Close()
 			h.db = nil
 			if err != nil {
@@ -619,6 +717,7 @@ func execDb(args []string) (out string) {
 		case "cp", "cps":
 			// crash: continue on a copy of the directory as it is on disk now
 			closeTxs()
+			h.reconfig(f)
 			img := h.snapshotDir(f[0] == "cps")
 			_ = h.db.Close()
 			h.db = nil
@@ -646,7 +745,7 @@ func execDb(args []string) (out string) {
 				o = "noimg"
 				break
 			}
-			h2 := &dbh{dir: h.f.imgDir, maxFile: h.maxFile, maxCach: h.maxCach}
+			h2 := &dbh{dir: h.f.imgDir, maxFile: h.maxFile, maxCach: h.maxCach, net: h.net}
 			h2.f = &faults{count: map[string]int{}, db: h2}
 			if err := h2.open(false); err != nil {
 				o = "open-" + errStr(err)
